@@ -6,7 +6,8 @@ A: TLC on spec/MCMerkle (property level: honest opening verifies, every single c
    spec/PathCompression (all index sequences with repetitions), each with spec-mutant canaries.
 B: every TLC-generated scenario (with the verdict the specification derives) is replayed on the
    real MerkleTree / BatchMerkleTree / verify_(batch_)merkle_proof_to_cap /
-   compress+decompress_merkle_proofs with PoseidonHash and KeccakHash<25>; MerkleFill's layout
+   compress+decompress_merkle_proofs with PoseidonHash and KeccakHash<25>; leaf widths 0..9 around
+   each hasher's no-op boundary with every element/byte altered (MCLeafDigest); MerkleFill's layout
    tables against the real `digests` (DRIFT level); the same trees under rayon pools of
    1, 2, 3, 8, 16 threads."""
 import json
@@ -64,6 +65,7 @@ def run(chk, tier):
 
     # ---- A: model checking (jobs run three at a time)
     jobs = [("Merkle h<=4 all scenarios", "MCMerkle", "MCMerkle", 8, 600),
+            ("LeafDigest bytes: both digest sizes, widths 0..9", "MCLeafDigest", "MCLeafDigest", 2, 300),
             ("MerkleFill all interleavings h<=3", "MerkleFill", "MerkleFill_h0123", 4, 600),
             ("BatchMerkle", "BatchMerkle", "BatchMerkle_h4" if thorough else "BatchMerkle", 4, 900),
             ("PathCompression", "PathCompression", "PathCompression_thorough" if thorough else "PathCompression", 8, 1700)]
@@ -71,6 +73,8 @@ def run(chk, tier):
         jobs.append(("MerkleFill all interleavings h=4", "MerkleFill", "MerkleFill_h4", 8, 1700))
     canaries = [("MCMerkle", "MCMerkle_canary_noswap", "verifier ignores the index bit"),
                 ("MCMerkle", "MCMerkle_canary_capany", "verifier accepts any cap entry"),
+                ("MCLeafDigest", "MCLeafDigest_canary_noop_by_element_count",
+                 "hash_or_noop decides by element count: a 4-element leaf is truncated under a 25-byte digest"),
                 ("MerkleFill", "MerkleFill_canary_sib_off", "off-by-one in merkle_tree_prove's sibling index"),
                 ("MerkleFill", "MerkleFill_canary_rmem", "right digest written to the left slot"),
                 ("MerkleFill", "MerkleFill_canary_swap", "wrong subtree split of the leaves"),
@@ -102,6 +106,33 @@ def run(chk, tier):
     can = common.vh(["replay-merkle", "--scen", o("c12-merkle-scen.ndjson"), "--flip-expect", k], binname=BIN)[-1]
     chk.canary("a flipped expectation in one Merkle scenario is reported by the replay",
                len(can["violations"]) == 2 and all(v["key"].startswith("C12/honest-rejected") for v in can["violations"]))
+
+    # ---- B1b: leaf widths 0..9 around each hasher's no-op boundary (scenarios of MCLeafDigest: every element,
+    #      every byte), batch variant, caps of trees differing in a high byte, digest = model's hash_or_noop
+    scen = _scenarios(results["LeafDigest bytes: both digest sizes, widths 0..9"], "REPLAY", o("c12-widths-scen.ndjson"))
+    if len(scen) != 2 * (10 + 8 * 45):
+        raise ToolError("MCLeafDigest printed %d scenarios" % len(scen))
+    out = _absorb(chk, common.vh(["widths", "--scen", o("c12-widths-scen.ndjson")], binname=BIN)[-1],
+                  "vh c12 widths --scen out/c12-widths-scen.ndjson")
+    per = out["extra"]["per_width"]
+    chk.extra["widths"] = per
+    for hn, hs in (("poseidon", 32), ("keccak25", 25)):
+        fit = hs // 8                       # widest leaf that is embedded verbatim
+        st = per[hn]
+        chk.canary("%s: widths 0..9 all replayed, honest openings exercised" % hn,
+                   sorted(map(int, st)) == list(range(10)) and all(v["honest"] > 0 for v in st.values()))
+        chk.canary("%s: no-op boundary as in the model (width %d embedded, width %d hashed)" % (hn, fit, fit + 1),
+                   st[str(fit)]["noop"] and not st[str(fit + 1)]["noop"])
+        for w, side in ((fit, "at the boundary (no-op side)"), (fit + 1, "exactly above the boundary"), (fit + 3, "well above")):
+            chk.canary("%s width %d (%s): altered leaves incl. top bytes of the last element were rejected" % (hn, w, side),
+                       st[str(w)]["rejected"] > 0 and st[str(w)]["top_byte_rejected"] > 0 and st[str(w)]["cap_pairs"] > 0)
+    can = common.vh(["widths", "--scen", o("c12-widths-scen.ndjson"), "--canary", "--canary-seeded"], binname=BIN)[-1]
+    chk.canary("an accepted 'altered' leaf is reported by the widths replay",
+               len(can["violations"]) == 1 and can["violations"][0]["key"] == "C12/accepted/leaf-element")
+    sd = can["extra"]["seeded"]
+    chk.canary("a Keccak-25 hasher whose hash_or_noop truncates 4-element leaves is reported (accepted leaf, colliding caps)",
+               sd["violations"] > 0 and "C12/accepted/leaf-element" in sd["keys"] and "C12/cap/collision" in sd["keys"]
+               and sd["widths"] == [4] and sd["drift"] > 0)
 
     # ---- B2: layout tables of MerkleFill (DRIFT level) + siblings of prove(i) (property level)
     tabs = common.tagged(results["MerkleFill all interleavings h<=3"].prints, "LAYOUT")
